@@ -40,6 +40,11 @@ var c09Bad = []func(name string) string{
 	func(n string) string { return "  " + n + ": 1\u3000" },     // … by an ideographic space
 	func(n string) string { return "  " + n + ": 2.5\f" },       // … by a form feed
 	func(n string) string { return "  " + n + ":\u00a07" },      // no-break space instead of the blank before the value
+	// long lines that are mostly multi-byte characters (more than 200 bytes in fewer than 200 characters, and more of both)
+	func(n string) string { return "  " + strings.Repeat("ж", 130) + n + ": 1oo" },
+	func(n string) string { return "  " + strings.Repeat("茶", 80) + n + " " + strings.Repeat("米", 30) },
+	func(n string) string { return "  " + n + ": " + strings.Repeat("🍵", 60) },
+	func(n string) string { return "  " + strings.Repeat("щ", 700) + n + ": x1" },
 }
 
 // plant inserts k malformed lines below the first heading; returns the new text and the (1-based position, raw line) list in file order.
@@ -87,6 +92,30 @@ func plant(r *rand.Rand, text string, k int, cc byte, prefixes ...string) (strin
 	return strings.Join(lines, "\n"), planted
 }
 
+// sprinkleEmptyNotes inserts note lines without content below the first heading.
+func sprinkleEmptyNotes(r *rand.Rand, text string, cc byte) string {
+	crlf := strings.Contains(text, "\r\n")
+	lines := strings.Split(text, "\n")
+	var out []string
+	seenHeading := false
+	for li, ln := range lines {
+		out = append(out, ln)
+		l := strings.TrimRight(ln, "\r")
+		if l != "" && l[0] != ' ' && l[0] != '\t' && l[0] != cc && l[0] != '-' {
+			seenHeading = true
+		}
+		if seenHeading && li < len(lines)-1 && r.Intn(5) == 0 {
+			c := string([]byte{cc})
+			note := []string{"  " + c, "\t" + c + " ", "  " + c + c, "- " + c, "    " + c + "  ", " " + c + "\t"}[r.Intn(6)]
+			if crlf {
+				note += "\r"
+			}
+			out = append(out, note)
+		}
+	}
+	return strings.Join(out, "\n")
+}
+
 var c09LogCmds = [][]string{{"reg"}, {"reg", "-s", "x"}, {"reg", "-f", "a"}, {"reg", "--use-old-reg-reporter"}, {"bal"}, {"bal", "-c"}, {"bal", "-s", "x"}, {"csv", "log"}, {"print"}, {"summary", "DATE"}, {"report", "totals"}, {"report", "quantity"}, {"report", "unresolved"}, {"stats"}}
 var c09BookCmds = [][]string{{"reg"}, {"reg", "-s", "x", "-g"}, {"bal"}, {"bal", "-s", "x"}, {"csv", "database"}, {"csv", "database-resolved"}, {"report", "element-total", "x"}, {"report", "totals"}, {"report", "unresolved"}, {"summary", "DATE"}, {"stats"}}
 
@@ -128,6 +157,11 @@ func runC09(c *core.Ctx) {
 				pfx = append(pfx, string(rune(ccn)), string(rune(ccn)))
 			}
 			c.Count("files_under_another_comment_character", 1)
+		}
+		if i%4 == 1 {
+			// notes without content ("  #", "- #", "\t# ") inside records: well formed, never an error
+			book, log = sprinkleEmptyNotes(r, book, cc), sprinkleEmptyNotes(r, log, cc)
+			c.Count("files_with_empty_notes", 1)
 		}
 		if inLog {
 			log, planted = plant(r, log, k, cc, pfx...)
